@@ -6,6 +6,7 @@ import (
 	"flag"
 	"fmt"
 	"os"
+	"time"
 )
 
 // harness <cmd> [flags]
@@ -13,6 +14,8 @@ import (
 //	gen  -family F -n N -seed S [-max M] -out scenarios.ndjson     seeded random scenarios
 //	run  -family F -in scenarios.ndjson -out trace.ndjson            drive the real code, record the trace
 func main() {
+	// nothing the library computes may depend on the process's time zone: the harness runs in an odd one
+	time.Local = time.FixedZone("verif+0237", 2*3600+37*60)
 	if len(os.Args) < 2 {
 		fatal("usage: harness gen|run ...")
 	}
